@@ -11,6 +11,7 @@ import time
 from .facts import VERIF, AnalysisBroken
 
 KNOWN = os.path.join(VERIF, 'known_findings.json')
+EVID = os.environ.get('VERIF_EVIDENCE_DIR') or os.path.join(VERIF, 'evidence')
 
 
 class Instance:
@@ -134,7 +135,7 @@ class Report:
         for i in known_hits:
             print('KNOWN-FINDING: property=%s %s [%s] %s %s' % (
                 self.pid, listed[i.key()].get('what', i.detail), i.key(), i.where, i.detail))
-        vdir = os.path.join(VERIF, 'evidence', 'violations')
+        vdir = os.path.join(EVID, 'violations')
         vpaths = []
         for n, i in enumerate(new_viol):
             os.makedirs(vdir, exist_ok=True)
@@ -180,8 +181,8 @@ class Report:
             'violations': len(new_viol),
         }
         ev['coverage'].update(self.extra)
-        os.makedirs(os.path.join(VERIF, 'evidence'), exist_ok=True)
-        p = os.path.join(VERIF, 'evidence', '%s.json' % self.pid)
+        os.makedirs(EVID, exist_ok=True)
+        p = os.path.join(EVID, '%s.json' % self.pid)
         tmp = p + '.%d.tmp' % os.getpid()
         json.dump(ev, open(tmp, 'w'), indent=1)
         os.replace(tmp, p)
